@@ -1113,6 +1113,7 @@ def _wrap_store(v, rng, ldtype):
 class _Cfg:
     concrete_ints = False  # integer arrays created by the facade are real numpy arrays
     check_int64 = False  # emit an `int-overflow` event when an integer product can leave int64
+    concrete_floats = False  # float arrays created by the facade are real numpy arrays too (fully concrete modules)
 
 
 cfg = _Cfg()
@@ -1219,7 +1220,7 @@ class _NP:
     # ---- construction
     def _new(self, shape, dtype, fill):
         dt = _ldt(dtype) or _np.dtype("float64")
-        if cfg.concrete_ints and dt.kind in "iub":
+        if (cfg.concrete_ints and dt.kind in "iub") or (cfg.concrete_floats and dt.kind == "f" and not isinstance(fill, Sym)):
             return _np.full(shape, fill if fill is not None else 0, dtype=dt)
         a = SArray(shape, dt)
         if fill is None:
@@ -1239,6 +1240,8 @@ class _NP:
         return self._new(shape, dtype, 1)
 
     def full(self, shape, v, dtype=None):
+        if isinstance(v, (str, bytes)):
+            return _np.full(shape, v, dtype=dtype)
         if dtype is None:
             dtype = float if isinstance(v, (float, SymReal, Fraction)) else (bool if isinstance(v, (bool, SymBool)) else _np.int64)
         return self._new(shape, dtype, v)
@@ -1467,7 +1470,7 @@ class _NP:
 
     def sum(self, x, axis=None, **k):
         if isinstance(x, _np.ndarray) and x.dtype != object:
-            return _np.sum(x, axis=axis)
+            return _np.sum(x.view(_np.ndarray), axis=axis, **k)
 
         def f(vals):
             t = 0
@@ -1477,9 +1480,9 @@ class _NP:
 
         return self._reduce(x, axis, f)
 
-    def prod(self, x, axis=None):
+    def prod(self, x, axis=None, **k):
         if isinstance(x, _np.ndarray) and x.dtype != object:
-            return _np.prod(x, axis=axis)
+            return _np.prod(x.view(_np.ndarray), axis=axis, **k)
 
         def f(vals):
             t = 1
@@ -1489,9 +1492,9 @@ class _NP:
 
         return self._reduce(x, axis, f)
 
-    def any(self, x, axis=None):
+    def any(self, x, axis=None, **k):
         if isinstance(x, _np.ndarray) and x.dtype != object:
-            return _np.any(x, axis=axis)
+            return _np.any(x.view(_np.ndarray), axis=axis, **k)
 
         def f(vals):
             for v in vals:
@@ -1501,9 +1504,9 @@ class _NP:
 
         return self._reduce(x, axis, f)
 
-    def all(self, x, axis=None):
+    def all(self, x, axis=None, **k):
         if isinstance(x, _np.ndarray) and x.dtype != object:
-            return _np.all(x, axis=axis)
+            return _np.all(x.view(_np.ndarray), axis=axis, **k)
 
         def f(vals):
             for v in vals:
@@ -1513,9 +1516,9 @@ class _NP:
 
         return self._reduce(x, axis, f)
 
-    def max(self, x, axis=None):
+    def max(self, x, axis=None, **k):
         if isinstance(x, _np.ndarray) and x.dtype != object:
-            return _np.max(x, axis=axis)
+            return _np.max(x.view(_np.ndarray), axis=axis, **k)
 
         def f(vals):
             m = vals[0]
@@ -1528,9 +1531,9 @@ class _NP:
 
     amax = max
 
-    def min(self, x, axis=None):
+    def min(self, x, axis=None, **k):
         if isinstance(x, _np.ndarray) and x.dtype != object:
-            return _np.min(x, axis=axis)
+            return _np.min(x.view(_np.ndarray), axis=axis, **k)
 
         def f(vals):
             m = vals[0]
@@ -1543,9 +1546,9 @@ class _NP:
 
     amin = min
 
-    def argmax(self, x, axis=None):
+    def argmax(self, x, axis=None, **k):
         if isinstance(x, _np.ndarray) and x.dtype != object:
-            return _np.argmax(x, axis=axis)
+            return _np.argmax(x.view(_np.ndarray), axis=axis, **k)
 
         def f(vals):
             m = 0
@@ -1556,9 +1559,9 @@ class _NP:
 
         return self._reduce(x, axis, f)
 
-    def argmin(self, x, axis=None):
+    def argmin(self, x, axis=None, **k):
         if isinstance(x, _np.ndarray) and x.dtype != object:
-            return _np.argmin(x, axis=axis)
+            return _np.argmin(x.view(_np.ndarray), axis=axis, **k)
 
         def f(vals):
             m = 0
@@ -1711,6 +1714,38 @@ def _sarray_sort(self, axis=-1, **k):
 
 SArray.sort = _sarray_sort
 
+def _all_plain(args, kwargs):
+    def ok(x):
+        if isinstance(x, Sym):
+            return False
+        if isinstance(x, _np.ndarray):
+            return x.dtype != object
+        if isinstance(x, (list, tuple)):
+            return all(ok(v) for v in x)
+        return True
+
+    return all(ok(a) for a in args) and all(ok(v) for v in kwargs.values())
+
+
+def _delegating(name, f):
+    real = getattr(_np, name, None)
+    if real is None:
+        return f
+
+    def g(self, *a, **k):
+        if a and _all_plain(a, k) and any(isinstance(x, _np.ndarray) for x in a):
+            return real(*[x.view(_np.ndarray) if isinstance(x, SArray) else x for x in a], **k)
+        return f(self, *a, **k)
+
+    g.__name__ = name
+    return g
+
+
+_NO_DELEGATE = {"empty", "zeros", "ones", "full", "zeros_like", "empty_like", "ones_like", "array", "asarray", "arange", "copy", "log", "exp", "log1p", "log10"}
+for _name, _f in list(vars(_NP).items()):
+    if callable(_f) and not _name.startswith("_") and _name not in _NO_DELEGATE and not isinstance(_f, (staticmethod, type)):
+        setattr(_NP, _name, _delegating(_name, _f))
+
 NP = _NP()
 np = NP
 
@@ -1797,7 +1832,14 @@ def symfloat(s):
     return SymReal(z3.RealVal(Fraction(s)))
 
 
+def _plain(x):
+    return (isinstance(x, _np.ndarray) and x.dtype != object) or isinstance(x, (int, float, _np.number)) and not isinstance(x, bool)
+
+
 def symdiv(a, b):
+    if (isinstance(a, _np.ndarray) or isinstance(b, _np.ndarray)) and _plain(a) and _plain(b):
+        with _np.errstate(all="ignore"):
+            return _np.true_divide(a, b)  # concrete numeric arrays: numpy itself
     if isinstance(a, _np.ndarray) or isinstance(b, _np.ndarray):
         # numpy semantics (array operands): no ZeroDivisionError
         return NP._fmap(lambda u, v: _scalar_div(u, v, array=True), a, b)
@@ -1843,6 +1885,9 @@ def symidiv(a, b):
                 "with casting rule 'same_kind'" % _ldt(ld)
             )
         r = symdiv(a, b)
+        if a.dtype != object:
+            a[...] = r
+            return a
         _np.ndarray.__setitem__(a, Ellipsis, r)
         return a
     return symdiv(a, b)
